@@ -186,9 +186,11 @@ class X(object):
         """Piecewise-linear curve through the sorted control points, flat outside; defined by cases.
         Returns CV: Cell -> Real together with the defining facts (registered on the initial state)."""
         reg = self.__dict__.setdefault("_curves", {})
+        c0 = z3.Const("CELL!generic", Cell)
+        key = (key, P(z3.IntVal(0)).decl().name(), Q(z3.IntVal(0)).decl().name(), z3.simplify(m).sexpr(), z3.simplify(xv(c0)).sexpr())
         if key in reg:
             return reg[key]
-        CV = smt.fresh_fun("curve_" + key, Cell, z3.RealSort())
+        CV = smt.fresh_fun("curve_" + key[0], Cell, z3.RealSort())
 
         def seg(k, xx):
             return (xx - P(k - 1)) * (Q(k) - Q(k - 1)) / (P(k) - P(k - 1)) + Q(k - 1)
@@ -451,6 +453,11 @@ def check_exit(eng, spec, x, st, out, label):
         name = _cls_name(eng, st, exc)
         st.trail.append("raises %s" % name)
         conds = [cond for (n, cond) in clauses if n == name]
+        if conds and any(cd is None for cd in conds):
+            # "may raise E": allowed, condition not specified
+            eng.results.append({"name": "%s/raises:%s:allowed" % (label, name), "kind": "raises", "status": "unsat",
+                                "backend": "syntactic", "time_s": 0, "function": eng.current.key, "clause": "raises", "exc": name})
+            return
         if not conds:
             eng.oblige(st, "%s/raises_only(%s)" % (label, name), z3.BoolVal(False), kind="raises",
                        meta={"clause": "raises_only", "exc": name})
@@ -462,9 +469,13 @@ def check_exit(eng, spec, x, st, out, label):
     # normal return
     r = out[1]
     for (n, cond) in clauses:
+        if cond is None:
+            continue
         eng.oblige(st, "%s/raises:%s:complete" % (label, n), cond_fails(st, cond), kind="raises", meta={"clause": "raises", "exc": n})
     want = spec.result(x)
     if want is None:
+        check_frame(eng, x, st, label)
+        check_touches(eng, spec, x, st, label)
         return
     if not (isinstance(r, Ref) and isinstance(st.get(r), ArrState)):
         eng.oblige(st, label + "/result:is-array", z3.BoolVal(False), kind="ensures", meta={"clause": "kind"})
@@ -532,6 +543,132 @@ def check_touches(eng, spec, x, st, label):
                 ok = True
             if ev[0] == "forall" and ev[1] == "touch" and ev[2] == name:
                 ok = True
+        if not ok and name in x.fam:
+            # an empty list has nothing to read
+            v = smt.check(st.hyps(), x.fam[name]["n"] == 0)
+            ok = v.status == "unsat"
         eng.results.append({"name": "%s/touches:%s" % (label, name), "kind": "touches", "status": "unsat" if ok else "sat",
                             "backend": "syntactic-log", "time_s": 0, "function": eng.current.key, "clause": "touches",
                             "trail": list(st.trail)[-8:]})
+
+
+# =========================================================================== modular use of a command spec (super().execute)
+class XActual(X):
+    """The X accessors over *actual* argument values at a call site."""
+
+    def __init__(self, eng, st, decl):
+        X.__init__(self, eng, decl)
+        self.st0 = st
+
+
+def build_actual(eng, st, ci, kwargs):
+    decl = CommandDecl(eng.repo, ci)
+    xa = XActual(eng, st, decl)
+    xa.c = st.cells[0]
+    outer = getattr(eng, "x", None)
+    if outer is not None:
+        xa.recfuns = outer.recfuns  # share definitional facts provider
+        xa.__dict__["_curves"] = outer.__dict__.setdefault("_curves", {})
+    states = [st]
+    for name, p in decl.inputs.items():
+        if name not in kwargs:
+            if p.required:
+                raise Unsupported("call of %s.execute without required %s" % (ci.name, name))
+            xa.present[name] = z3.BoolVal(False)
+            # placeholders for absent optionals
+            if p.cls == "NumberParameter":
+                xa.nums[name] = (z3.RealVal(0), True)
+            elif p.cls in ("StringParameter", "PathParameter"):
+                xa.strs[name] = z3.StringVal("")
+            continue
+        v = kwargs[name]
+        xa.present[name] = z3.BoolVal(True)
+        if p.cls == "ResultParameter" and isinstance(p.output_type, ParamDecl) and p.output_type.cls == "DataParameter":
+            outs = list(eng.get_attr(st, v, "result"))
+            if len(outs) != 1 or isinstance(outs[0][1], Raised):
+                raise Unsupported("callee input .result forks")
+            ref = outs[0][1]
+            s = eng.arr_state(st, ref)
+            if s.kind != "MA":
+                raise Unsupported("callee input is not a masked array")
+            view = s.val
+            if outer is not None:
+                for od in outer.single.values():
+                    if od["state"] is s:
+                        view = od["X"]  # an untouched input of the caller: the callee sees the same valid view
+            xa.single[name] = dict(X=view, M=s.miss, P=None, dt=s.dtype, sh=s.shape, ref=ref, state=s)
+        elif p.cls == "NumberParameter":
+            if not is_num(v):
+                raise Unsupported("callee number argument %r" % (v,))
+            xa.nums[name] = (num_term(v), isint_of(v))
+        elif p.cls == "ListParameter" and isinstance(p.value_type, ParamDecl) and p.value_type.cls == "NumberParameter":
+            o = st.get(v) if isinstance(v, Ref) else None
+            if not isinstance(o, PyList):
+                raise Unsupported("callee list argument")
+            seq = eng.list_seq(o)
+            xa.numlists[name] = dict(n=seq.n, W=lambda k, seq=seq: num_term(seq.get(k)),
+                                     WI=lambda k, seq=seq: isint_of(seq.get(k)), seq=seq)
+        elif p.cls in ("StringParameter", "PathParameter"):
+            xa.strs[name] = eng.str_term(v)
+        elif p.cls == "BooleanParameter":
+            xa.bools[name] = v if not isinstance(v, Sym) else v.t
+            if isinstance(v, bool):
+                xa.bools[name] = z3.BoolVal(v)
+        elif p.cls == "TupleParameter":
+            pass
+        else:
+            raise Unsupported("callee parameter kind %s" % p.cls)
+    return xa
+
+
+class SpecContract(object):
+    """Contract of `K.execute` derived from K's CommandSpec, for modular calls (super().execute(**kwargs))."""
+
+    def __init__(self, ci, spec):
+        self.ci, self.spec = ci, spec
+
+    def apply(self, eng, st, f, args, kwargs):
+        if args:
+            raise Unsupported("positional arguments to execute")
+        xa = build_actual(eng, st, self.ci, kwargs)
+        xa.self_ref = f.self_val
+        label = "%s->%s.execute" % (eng.current.key if eng.current else "?", self.ci.name)
+        if self.spec.uses_stats:
+            for name, d in xa.single.items():
+                eng.ensure_stats(st, d["state"])
+        for i, a in enumerate(self.spec.requires(xa)):
+            eng.oblige(st, "%s/requires[%d]" % (label, i), a, kind="callsite-requires", meta={"clause": "callsite"})
+        clauses = self.spec.raises(xa)
+        rest = st
+        for (name, cond) in clauses:
+            if isinstance(cond, tuple):
+                raise Unsupported("position-quantified raise clause in a modular call")
+            sr = rest.fork()
+            if cond is None:
+                # "may raise": both outcomes possible, no condition known
+                exc = sr.alloc(Obj(eng.lookup_class(name), {"lineno": Sym("dyn", smt.fresh("exc_lineno", smt.Val))}))
+                sr.trail.append("callee may raise %s" % name)
+                yield sr, Raised(exc)
+                continue
+            sr.assume(cond)
+            if eng.feasible(sr):
+                cv = eng.lookup_class(name)
+                # the exception object: class is what matters to callers; fields are unspecified
+                exc = sr.alloc(Obj(cv, {"lineno": Sym("dyn", smt.fresh("exc_lineno", smt.Val))}))
+                sr.trail.append("callee raises %s" % name)
+                yield sr, Raised(exc)
+            rest = rest.fork()
+            rest.assume(z3.Not(cond))
+        if not eng.feasible(rest):
+            return
+        want = self.spec.result(xa)
+        junk = eng.fresh_valfun("callee_payload")
+        miss, value = want["miss"], want.get("value")
+        if value is None:
+            value = eng.fresh_valfun("callee_unspecified_value")
+        dt = want.get("dtype")
+        if dt is None:
+            dt = smt.fresh("callee_dt", DT)
+            rest.assume(z3.Or(dt == INT, dt == FLT))
+        new = ArrState("MA", dt, want["shape"], lambda c: z3.If(miss(c), junk(c), value(c)), miss)
+        yield rest, rest.alloc(new)
